@@ -488,4 +488,9 @@ def _moved_locals(b, rv, depth=0):
                 for d_ in b.defs.get(l, []):
                     if d_[2] == "assign":
                         out |= _moved_locals(b, d_[3]["rv"], depth + 1)
+                    elif d_[2] == "call" and len(d_[3]["args"]) == 1 and any(callee_name(d_[3]).endswith(sfx) for sfx in ("::into", "::from", "::to_owned", "::into_owned")):
+                        # a value-preserving conversion (`s.into()` for `Cow::Owned(s)`)
+                        a0 = d_[3]["args"][0]
+                        if a0["k"] in ("move", "copy") and not a0["place"]["p"]:
+                            out |= _moved_locals(b, {"k": "use", "op": a0}, depth + 1)
     return out
